@@ -38,10 +38,17 @@ class Rig:
         self.objs = {}
         self.pos = {}
         self.vb = {}
+        # parameters the law does not depend on: where the grid's first cell centre sits (None = h/2) and when the forcing clock starts
+        self.sfrac = {(2, False): None, (2, True): 0.0, (3, False): -1.75, (3, True): None}[(D, reset)]
+        self.t0 = {np.float64: 0.0, np.float32: 3.5}[real_t] if nbodies == 1 else 1.25
+        self.construction_issue = None
         for b in range(1, nbodies + 1):
+            kw = {} if self.sfrac is None else {"eul_grid_coord_shift": real_t(self.sfrac * self.h)}
             self.objs[b] = VirtualBoundaryForcing(
                 virtual_boundary_stiffness_coeff=real_t(KK), virtual_boundary_damping_coeff=real_t(CC), grid_dim=D, dx=real_t(self.h),
-                num_lag_nodes=N, real_t=real_t, enable_eul_grid_forcing_reset=reset, start_time=0.0)
+                num_lag_nodes=N, real_t=real_t, enable_eul_grid_forcing_reset=reset, start_time=self.t0, **kw)
+            if float(self.objs[b].time) != self.t0:
+                self.construction_issue = f"VirtualBoundaryForcing(start_time={self.t0}) starts with time = {self.objs[b].time!r}"
             self.place(b)
             self.vb[b] = np.zeros((D, N), dtype=real_t)
 
@@ -50,7 +57,7 @@ class Rig:
         ext = [self.grid[self.D - 1 - k] for k in range(self.D)]     # extent per physical axis (x first)
         cells = np.stack([self.rng.integers(2, n - 3, self.N) for n in ext])
         cells[:, 0] = [n - 4 for n in ext]                           # one marker at the far end of every axis
-        self.pos[b] = ((cells + 0.5) * self.h).astype(self.real_t)
+        self.pos[b] = ((cells + (0.5 if self.sfrac is None else self.sfrac)) * self.h).astype(self.real_t)
 
     def set_flow(self, u):
         self.vel[...] = self.real_t(u)
@@ -76,7 +83,7 @@ def fresh_rig(D, nb, reset, real_t, rng):
         o.lag_grid_velocity_mismatch_field[...] = 0
         o.lag_grid_forcing_field[...] = 0
         o.lag_grid_flow_velocity_field[...] = 0
-        o.time = 0.0
+        o.time = rig.t0
         rig.place(b)
         rig.vb[b][...] = 0
     return rig
@@ -85,6 +92,8 @@ def fresh_rig(D, nb, reset, real_t, rng):
 def replay_behaviour(chk, steps, D, reset, real_t, rng):
     nb = len(steps[0]["v"]) if isinstance(steps[0]["v"], list) else len(steps[0]["v"])
     rig = fresh_rig(D, nb, reset, real_t, rng)
+    if rig.construction_issue:
+        return rig.construction_issue
     exact = real_t == np.float64  # cos(pi/2) rounds to exactly 0 relative to 1 only in double precision
     rel = 0.0 if exact else 16 * float(np.finfo(real_t).eps)
     first = steps[0]
@@ -134,8 +143,8 @@ def replay_behaviour(chk, steps, D, reset, real_t, rng):
             for name, arr in got.items():
                 if not np.all(np.abs(arr.astype(float) - want[name]) <= rel * (abs(want[name]) + 8)):
                     return f"step {si} ({act} body {b} dt {dt}): body {k} {name} = {np.unique(arr)} but the specification gives {want[name]}"
-            if float(o.time) != float(want["clk"]):
-                return f"step {si} ({act}): forcing clock of body {k} = {o.time} but the specification gives {want['clk']}"
+            if float(o.time) != rig.t0 + float(want["clk"]):
+                return f"step {si} ({act}): forcing clock of body {k} = {o.time} but the specification gives {rig.t0} + {want['clk']}"
         # shared field: sum per component = sum of the spread forces * N markers (partition of unity, dyadic weights)
         tot = rig.forcing.reshape(D, -1).sum(axis=1) * rig.h**D
         want_tot = sum(e[1] for e in s["eul"]) * rig.N
